@@ -48,6 +48,17 @@ CHECKS.update({
                      "associativity) for all stacks on the documented matching rules and enumerates every expression with its verdict on "
                      "every stack; the real create_loc_stack_checker must agree on every pair (exhaustive: ~500 expressions x 1332 "
                      "stacks quick, nesting 3 and the rich pools thorough), plus the effect route through a Retort."),
+    "C03": dict(technique="TLA+ spec Layout.tla (schema merge, key generation, paths, refusal rules, LoadModel/DumpModel on the crown) "
+                          "model-checked by TLC through MC_Layout.tla; every enumerated program replayed with the real name_mapping on its "
+                          "model-generated probe family",
+                category="model_checking", design_ref="6/C03",
+                note="trusts: gamma's character-level rendering of names/styles/keys; dataclass kind here (other kinds in C17); bounded "
+                     "shapes (3-4 fields) and recipes (<= 2 overlays); TLC/SANY",
+                text="Every generated loader/dumper program of the bounded space gets its own exhaustive small input family, computed by "
+                     "the model (TLC is enumerator and oracle): creation refused exactly when documented, every field taken from / written "
+                     "to exactly its documented path, unknown keys handled per policy with exact key sets, omit_default, list gaps; "
+                     "TLC also checks on the model that a created loader loads its own layout, loader and dumper agree, map beats "
+                     "style/trim, skip beats only."),
     "C04": dict(technique=_LOAD_TECH + "; any exception that is not a LoadError tree is a violation", category="model_checking",
                 design_ref="6/C04", note=_LOAD_NOTE,
                 text="The model's outcome alphabet is {accepted, LoadError tree}; every enumerated case (incl. the hostile token classes "
